@@ -62,8 +62,11 @@ def r1(ctx, facts):
             ok = good
             why = "" if ok else "the entity->marker closure does not return markers.get(entity)"
         ctx.ob("C14-R1", "serialize: references are written as the referenced entity's marker", ok, s.loc(), why)
-    d = [b for b in facts.bodies if b.trait_item and b.trait_item.endswith("DeserializeSeed::deserialize") and "DeserializeEntity" in (b.self_ty or "")]
-    ctx.anchor("C14-R1", "DeserializeSeed for DeserializeEntity", d)
+    # role: the per-element loader = the body that hands an element's data to DeserializeComponents::deserialize_entity (today the
+    # DeserializeSeed impl of the private DeserializeEntity; a merged / renamed private loader type is found the same way)
+    d = [b for b in facts.bodies if b.kind != "Closure" and
+         any(t["callee"].get("path") == "saveload::de::DeserializeComponents::deserialize_entity" for _, t in b.real_calls())]
+    ctx.anchor("C14-R1", "per-element loader (the body that calls DeserializeComponents::deserialize_entity)", d)
     for b in d:
         res = [bb for bb, t in b.calls() if t["callee"].get("path") == "saveload::marker::MarkerAllocator::retrieve_entity"]
         des = [bb for bb, t in b.calls() if t["callee"].get("path") == "saveload::de::DeserializeComponents::deserialize_entity"]
